@@ -46,7 +46,7 @@ def cases(draw):
         st.tuples(st.just("delete"), which, st.just(""), st.just(0), st.just(0)),
         st.tuples(st.just("dup"), which, st.just(""), st.integers(0, 4), st.just(0)),
     ).map(list)
-    case = {"threads": draw(st.sampled_from(["sync", "async"])), "fmt": draw(st.sampled_from(["sdmf", "mdmf"])), "k": k, "n": n, "seg": seg, "versions": draw(st.lists(st.integers(0, 5 * seg), min_size=1, max_size=3)),
+    case = {"hsalt": draw(st.integers(0, 15)), "threads": draw(st.sampled_from(["sync", "async"])), "fmt": draw(st.sampled_from(["sdmf", "mdmf"])), "k": k, "n": n, "seg": seg, "versions": draw(st.lists(st.integers(0, 5 * seg), min_size=1, max_size=3)),
             "damage": draw(st.lists(dmg, min_size=1, max_size=4)), "sched": draw(st.lists(st.integers(0, 9), max_size=40))}
     if draw(st.integers(0, 5)) == 0:
         # colluding servers: one sacrificial share whose share hash chain lists forged leaf hashes followed by a hash number that is not in the tree,
